@@ -70,7 +70,7 @@ pub fn basis_ops(out: &str, tokens_out: &str, thorough: bool, seed: u64) {
                     lines.push(json!({"op": "write", "cur": tok(cell.get_value())}).to_string());
                 }
                 _ => {
-                    let step = *[1e-5, 0.01, 0.3, 1.0].choose(&mut rng).unwrap();
+                    let step = *[1e-5, 0.01, 0.3, 1.0, 1.1, 1.5, 1.9, 2.5, 0.].choose(&mut rng).unwrap();
                     let res = basis.sample(&mut rng, step);
                     let bound = ((step * 0.5 * (hi - lo)) * 1e6).ceil() as i64 + 1;
                     lines.push(
